@@ -1263,3 +1263,876 @@ func init() {
 			}
 		}})
 }
+
+func init() {
+	register(&Rule{ID: "CP.store", Min: 2, Text: "a recorded checkpoint is recorded whole: in the methods of database.ClientInfo that store a document's checkpoint (they assign ClientDocInfo.ClientSeq from a parameter: UpdateCheckpoint), every return of a nil error is reached only after the stores of both ClientSeq and ServerSeq — the stored ClientSeq is the server's duplicate filter; a success exit that skips it (an early return under a condition on the other field) leaves the filter behind the log, and the next request of the client is rejected for ever or, after a lost response, stored twice",
+		Run: func(x *Ctx) {
+			cSeq := x.P.Field(dbPkg + ".ClientDocInfo.ClientSeq")
+			sSeq := x.P.Field(dbPkg + ".ClientDocInfo.ServerSeq")
+			ciT := x.P.Named(dbPkg + ".ClientInfo")
+			if cSeq == nil || sSeq == nil || ciT == nil {
+				x.C.Unresolved(x.id(), dbPkg+".ClientDocInfo.ClientSeq/ServerSeq")
+				return
+			}
+			n := 0
+			for _, fn := range x.P.FuncsIn(dbPkg) {
+				r := fn.Signature.Recv()
+				if r == nil || fn.Parent() != nil || namedOf(r.Type()) == nil || namedOf(r.Type()).Obj() != ciT.Obj() {
+					continue
+				}
+				fromParam := func(st *ssa.Store) bool {
+					return prog.DependsOn(st.Val, func(w ssa.Value) bool {
+						pm, ok := w.(*ssa.Parameter)
+						return ok && pm != fn.Params[0]
+					})
+				}
+				var cs, ss []*ssa.Store
+				for _, st := range storesTo(fn, cSeq) {
+					if fromParam(st) {
+						cs = append(cs, st)
+					}
+				}
+				for _, st := range storesTo(fn, sSeq) {
+					if fromParam(st) {
+						ss = append(ss, st)
+					}
+				}
+				if len(cs) == 0 {
+					continue
+				}
+				i := 0
+				for _, ret := range prog.Returns(fn) {
+					if !prog.ReturnsNilError(ret) {
+						continue
+					}
+					i++
+					n++
+					k := fmt.Sprintf("func=%s ok-return#%d", prog.FnName(fn), i)
+					x.check(passesThrough(ret, asInstrs(cs)), k+" after-ClientSeq-store", x.pos(ret), "success is reported only after the ClientSeq was stored",
+						"a nil error is returned on a path that never stored the ClientSeq: the server's duplicate filter stays behind what the log already holds")
+					n++
+					x.check(len(ss) > 0 && passesThrough(ret, asInstrs(ss)), k+" after-ServerSeq-store", x.pos(ret), "success is reported only after the ServerSeq was stored",
+						"a nil error is returned on a path that never stored the ServerSeq")
+				}
+			}
+			if n < 2 {
+				x.C.Vacuous(x.id()+" success exits of checkpoint setters", n, 2)
+			}
+		}})
+
+	register(&Rule{ID: "O1.gate", Min: 2, Text: "the schema and size gates of Document.Update are skipped only for changes without operations: every test one of whose outcomes bypasses schema.ValidateYorkieRuleset, or the comparison with the size limit, and that asks the change context something, asks a predicate that reads the context's operations (IsPresenceOnlyChange / HasOperations) — a predicate about the presence part (HasPresenceChange) lets an update that edits the root and also touches presence through both gates: it is executed on the document, queued and pushed although it breaks the schema or the size limit",
+		Run: func(x *Ctx) {
+			fn := x.fn(docPkg + ".(*Document).Update")
+			opsF := x.P.Field(changePkg + ".Context.operations")
+			ctxT := x.P.Named(changePkg + ".Context")
+			limF := x.P.Field(docPkg + ".Document.MaxSizeLimit")
+			if fn == nil || opsF == nil || ctxT == nil || limF == nil {
+				if opsF == nil || ctxT == nil || limF == nil {
+					x.C.Unresolved(x.id(), "change.Context.operations / Document.MaxSizeLimit")
+				}
+				return
+			}
+			// the gated sites: the validator call, and the comparison of the limit with the size
+			var sites []ssa.Instruction
+			var names []string
+			for _, c := range prog.CallsIn(fn) {
+				if o := prog.CallObj(c); o != nil && o.Pkg() != nil && strings.HasSuffix(o.Pkg().Path(), "/pkg/schema") && strings.HasPrefix(o.Name(), "Validate") {
+					sites = append(sites, c)
+					names = append(names, "schema")
+				}
+			}
+			for _, b := range fn.Blocks {
+				for _, ins := range b.Instrs {
+					bo, ok := ins.(*ssa.BinOp)
+					if !ok || !(bo.Op == token.LSS || bo.Op == token.GTR || bo.Op == token.LEQ || bo.Op == token.GEQ) {
+						continue
+					}
+					if prog.LoadedField(bo.X) == limF || prog.LoadedField(bo.Y) == limF {
+						if _, isK := bo.Y.(*ssa.Const); isK {
+							continue // MaxSizeLimit > 0
+						}
+						if _, isK := bo.X.(*ssa.Const); isK {
+							continue
+						}
+						sites = append(sites, bo)
+						names = append(names, "size")
+					}
+				}
+			}
+			readsOps := func(callee *ssa.Function) bool {
+				for _, b := range callee.Blocks {
+					for _, ins := range b.Instrs {
+						if fa, ok := ins.(*ssa.FieldAddr); ok && prog.FieldVar(fa) == opsF {
+							return true
+						}
+					}
+				}
+				return false
+			}
+			for i, site := range sites {
+				k := fmt.Sprintf("func=%s gate=%s#%d", prog.FnName(fn), names[i], i+1)
+				bad := ""
+				asked := 0
+				// the bypass conditions of the site: tests one of whose edges can still reach it and the other cannot
+				var bypass []*ssa.If
+				for _, b := range fn.Blocks {
+					iff := prog.IfOf(b)
+					if iff == nil || len(b.Succs) != 2 {
+						continue
+					}
+					r0 := b.Succs[0] == site.Block() || prog.ReachableFrom(b.Succs[0], nil)[site.Block()]
+					r1 := b.Succs[1] == site.Block() || prog.ReachableFrom(b.Succs[1], nil)[site.Block()]
+					if r0 != r1 {
+						bypass = append(bypass, iff)
+					}
+				}
+				for _, iff := range bypass {
+					prog.DependsOn(iff.Cond, func(w ssa.Value) bool {
+						c, ok := w.(*ssa.Call)
+						if !ok {
+							return false
+						}
+						callee := c.Call.StaticCallee()
+						if callee == nil || callee.Signature.Recv() == nil || namedOf(callee.Signature.Recv().Type()) == nil || namedOf(callee.Signature.Recv().Type()).Obj() != ctxT.Obj() {
+							return false
+						}
+						if b, isB := c.Type().(*types.Basic); !isB || b.Kind() != types.Bool {
+							return false
+						}
+						asked++
+						if !readsOps(callee) {
+							bad = callee.Name()
+						}
+						return false
+					})
+				}
+				x.check(bad == "" && asked > 0, k+" skipped-only-without-operations", x.pos(site), "the gate's bypass asks whether the change has operations",
+					"the gate is bypassed on the answer of Context."+bad+", which does not look at the operations: an update that edits the root and also touches presence skips the gate")
+			}
+		}})
+}
+
+func init() {
+	register(&Rule{ID: "STALE.list", Min: 5, Text: "a child list is looked at after the structure was changed, not before: index.Node.Children() hands out a fresh slice — a snapshot. In the tree model (packages crdt, index) a function that takes such a snapshot and later reads it (indexes it, ranges over it, takes its length) does not call, between the two, a function that changes which nodes are children of some node (one that writes index.Node.children, directly or through its callees: Split, InsertAt/After/Before, Append, Prepend, RemoveChild, SetChildren …; the function's own recursion into a child excepted) — the RGA skip in Tree.FindTreeNodesWithSplitText walks the siblings right of the split text node, which exist only after the split",
+		Run: func(x *Ctx) {
+			childrenF := x.P.Field("pkg/index.Node.children")
+			if childrenF == nil {
+				x.C.Unresolved(x.id(), "pkg/index.Node.children")
+				return
+			}
+			// functions that change a children slice, transitively (within the model)
+			scope := x.P.FuncsIn(crdtPkg, "pkg/index")
+			structural := map[*ssa.Function]bool{}
+			for _, fn := range scope {
+				for _, b := range fn.Blocks {
+					for _, ins := range b.Instrs {
+						if st, ok := ins.(*ssa.Store); ok {
+							if fa, isFA := st.Addr.(*ssa.FieldAddr); isFA && sameField(prog.FieldVar(fa), childrenF) {
+								structural[fn] = true
+							}
+						}
+					}
+				}
+			}
+			for changed := true; changed; {
+				changed = false
+				for _, fn := range scope {
+					if structural[fn] {
+						continue
+					}
+					for _, e := range x.calls().out[fn] {
+						if structural[e.Callee] || (e.Callee.Origin() != nil && structural[e.Callee.Origin()]) {
+							structural[fn] = true
+							changed = true
+							break
+						}
+					}
+				}
+			}
+			n := 0
+			for _, fn := range scope {
+				if len(fn.Blocks) == 0 || (fn.Origin() != nil && fn.Origin() != fn) {
+					continue
+				}
+				i := 0
+				for _, c := range prog.CallsIn(fn) {
+					cc, ok := c.(*ssa.Call)
+					if !ok || prog.CallObj(cc) == nil || prog.CallObj(cc).Name() != "Children" {
+						continue
+					}
+					if _, isSl := cc.Type().Underlying().(*types.Slice); !isSl {
+						continue
+					}
+					// the reads of the snapshot
+					var reads []ssa.Instruction
+					var walk func(v ssa.Value, d int)
+					walk = func(v ssa.Value, d int) {
+						if d > 3 || v.Referrers() == nil {
+							return
+						}
+						for _, r := range *v.Referrers() {
+							switch t := r.(type) {
+							case *ssa.IndexAddr, *ssa.Range, *ssa.Slice:
+								reads = append(reads, r)
+							case *ssa.Call:
+								if bi, isB := t.Call.Value.(*ssa.Builtin); isB && bi.Name() == "len" {
+									reads = append(reads, r)
+								}
+							case *ssa.Phi:
+								walk(t, d+1)
+							case *ssa.Store:
+								if a, isA := t.Addr.(*ssa.Alloc); isA && t.Val == v {
+									for _, ar := range *a.Referrers() {
+										if u, isU := ar.(*ssa.UnOp); isU {
+											walk(u, d+1)
+										}
+									}
+								}
+							}
+						}
+					}
+					walk(cc, 0)
+					if len(reads) == 0 {
+						continue
+					}
+					i++
+					n++
+					bad := ""
+					for _, m := range prog.CallsIn(fn) {
+						callee := m.Common().StaticCallee()
+						if callee == nil {
+							continue
+						}
+						if !(structural[callee] || (callee.Origin() != nil && structural[callee.Origin()])) {
+							continue
+						}
+						if callee == fn || callee.Origin() == fn {
+							continue // the recursion descends into a child: it rebuilds that child's list, not the one held here
+						}
+						if !prog.MayPrecede(cc, m) || m == ssa.CallInstruction(cc) {
+							continue
+						}
+						// … without a fresh snapshot in between: the call must not come before the snapshot on the way to the read
+						for _, rd := range reads {
+							if prog.MayPrecede(m, rd) && !(prog.MayPrecede(m, cc) && prog.Dominates(cc, rd) && !prog.Dominates(cc, m)) {
+								bad = callee.Name() + " at " + x.pos(m)
+							}
+						}
+					}
+					x.check(bad == "", fmt.Sprintf("func=%s Children-snapshot#%d read-before-any-structural-change", prog.FnName(fn), i), x.pos(cc),
+						"no call that changes a children list comes between taking the snapshot and reading it",
+						"the child list is taken and then "+bad+" changes which nodes are children before the list is read: the reader walks a list that no longer is the structure (the RGA skip right of a just-split text node misses the split-off piece and the concurrent sibling behind it — the same insert lands in different places on two replicas)")
+				}
+			}
+			if n < 5 {
+				x.C.Vacuous(x.id()+" snapshots of child lists that are read", n, 5)
+			}
+		}})
+}
+
+func init() {
+	register(&Rule{ID: "DEC.default", Min: 2, Text: "a decoder rejects what it does not know: in package converter every type switch over a wire oneof (the body of an Operation, of a JSONElement) — in SSA, a chain of comma-ok type assertions on one value whose interface type belongs to the generated API package — ends, on the path where no case matched, in a return of a non-nil error (or a panic); never in a continue or a fall-through. An operation from a newer SDK, a rolled-back server or a corrupted row that is skipped silently is stored, relayed and snapshotted as a shorter change while its sender keeps the effect",
+		Run: func(x *Ctx) {
+			n := 0
+			for _, fn := range x.P.FuncsIn(convPkg) {
+				if len(fn.Blocks) == 0 {
+					continue
+				}
+				// comma-ok assertions grouped by the asserted value
+				groups := map[ssa.Value][]*ssa.TypeAssert{}
+				var order []ssa.Value
+				for _, b := range fn.Blocks {
+					for _, ins := range b.Instrs {
+						ta, ok := ins.(*ssa.TypeAssert)
+						if !ok || !ta.CommaOk {
+							continue
+						}
+						nt, isN := ta.X.Type().(*types.Named)
+						if !isN || nt.Obj().Pkg() == nil || !strings.HasSuffix(nt.Obj().Pkg().Path(), "/"+apiPkg) {
+							continue
+						}
+						if _, isI := nt.Underlying().(*types.Interface); !isI {
+							continue
+						}
+						if _, seen := groups[ta.X]; !seen {
+							order = append(order, ta.X)
+						}
+						groups[ta.X] = append(groups[ta.X], ta)
+					}
+				}
+				i := 0
+				for _, v := range order {
+					tas := groups[v]
+					if len(tas) < 2 {
+						continue // a single assertion is a cast, not a switch
+					}
+					inGroup := map[*ssa.BasicBlock]bool{}
+					for _, ta := range tas {
+						inGroup[ta.Block()] = true
+					}
+					// the no-match block: the false successor of an assertion's test that holds no further assertion of the group
+					var def *ssa.BasicBlock
+					for _, ta := range tas {
+						iff := prog.IfOf(ta.Block())
+						if iff == nil || len(ta.Block().Succs) != 2 {
+							continue
+						}
+						f := ta.Block().Succs[1]
+						if !inGroup[f] {
+							def = f
+						}
+					}
+					if def == nil {
+						continue
+					}
+					i++
+					n++
+					cur := def
+					for step := 0; step < 4; step++ {
+						last := cur.Instrs[len(cur.Instrs)-1]
+						if _, isJ := last.(*ssa.Jump); isJ && len(cur.Succs) == 1 && len(cur.Instrs) <= 2 {
+							cur = cur.Succs[0]
+							continue
+						}
+						break
+					}
+					ok := false
+					switch t := cur.Instrs[len(cur.Instrs)-1].(type) {
+					case *ssa.Return:
+						ok = !prog.ReturnsNilError(t) && fn.Signature.Results().Len() > 0 && isErrorType(fn.Signature.Results().At(fn.Signature.Results().Len()-1).Type())
+					case *ssa.Panic:
+						ok = true
+					}
+					x.check(ok, fmt.Sprintf("func=%s oneof-switch#%d(%s) no-match-is-an-error", prog.FnName(fn), i, namedOf(v.Type()).Obj().Name()), x.pos(tas[0]),
+						"the path on which no case matched returns an error",
+						"a body that matches no case of the switch is not rejected (the no-match path continues or falls through): an unknown or empty operation is dropped silently — the change is stored and relayed without it while its sender keeps the effect")
+				}
+			}
+			if n < 2 {
+				x.C.Vacuous(x.id()+" oneof switches", n, 2)
+			}
+		}})
+}
+
+func init() {
+	register(&Rule{ID: "N.alloc", Min: 1, Text: "a decoder allocates what the bytes hold, not what they claim: in the hand-written binary decoders of the document model (functions of packages time, crdt, change that build a *bytes.Reader over their input or take one), an integer read from the input is not the size of a make() — map or slice — unless the allocation is under a test that relates that integer to the length of the input (len(data), Reader.Len()). A truncated or hostile stored vector of 8 bytes that claims 2^22 entries otherwise allocates hundreds of MiB before the first entry fails to decode",
+		Run: func(x *Ctx) {
+			n := 0
+			isReaderT := func(t types.Type) bool {
+				if p, ok := t.(*types.Pointer); ok {
+					if nt, isN := p.Elem().(*types.Named); isN && nt.Obj().Pkg() != nil {
+						return nt.Obj().Pkg().Path() == "bytes" && nt.Obj().Name() == "Reader"
+					}
+				}
+				return false
+			}
+			for _, fn := range x.P.FuncsIn(timePkg, crdtPkg, changePkg) {
+				if len(fn.Blocks) == 0 {
+					continue
+				}
+				// integers that come out of the input
+				var counts []ssa.Value
+				for _, c := range prog.CallsIn(fn) {
+					cc, ok := c.(*ssa.Call)
+					if !ok {
+						continue
+					}
+					takesReader := false
+					for _, a := range cc.Call.Args {
+						if isReaderT(a.Type()) {
+							takesReader = true
+						}
+					}
+					if !takesReader {
+						continue
+					}
+					// an integer result (possibly with an error)
+					isInt := func(t types.Type) bool {
+						b, ok := t.Underlying().(*types.Basic)
+						return ok && b.Info()&types.IsInteger != 0
+					}
+					switch t := cc.Type().(type) {
+					case *types.Tuple:
+						if t.Len() > 0 && isInt(t.At(0).Type()) {
+							for _, r := range *cc.Referrers() {
+								if ex, isE := r.(*ssa.Extract); isE && ex.Index == 0 {
+									counts = append(counts, ex)
+								}
+							}
+						}
+					default:
+						if isInt(cc.Type()) {
+							counts = append(counts, cc)
+						}
+					}
+				}
+				for i, cnt := range counts {
+					// is it used as a loop bound or an allocation size at all?
+					dep := func(v ssa.Value) bool {
+						return v != nil && prog.DependsOn(v, func(w ssa.Value) bool { return w == cnt })
+					}
+					var makes []ssa.Instruction
+					bound := false
+					for _, b := range fn.Blocks {
+						for _, ins := range b.Instrs {
+							switch t := ins.(type) {
+							case *ssa.MakeMap:
+								if dep(t.Reserve) {
+									makes = append(makes, t)
+								}
+							case *ssa.MakeSlice:
+								if dep(t.Len) || dep(t.Cap) {
+									makes = append(makes, t)
+								}
+							case *ssa.If:
+								if bo, ok := t.Cond.(*ssa.BinOp); ok && (dep(bo.X) || dep(bo.Y)) {
+									bound = true
+								}
+							}
+						}
+					}
+					if !bound && len(makes) == 0 {
+						continue // a decoded value, not a count
+					}
+					n++
+					bad := ""
+					for _, mk := range makes {
+						guarded := false
+						for _, iff := range x.P.ControlDeps(mk.Block()) {
+							relatesToInput := prog.DependsOn(iff.Cond, func(w ssa.Value) bool {
+								c, ok := w.(*ssa.Call)
+								if !ok {
+									return false
+								}
+								if bi, isB := c.Call.Value.(*ssa.Builtin); isB && bi.Name() == "len" {
+									return true
+								}
+								o := prog.CallObj(c)
+								return o != nil && (o.Name() == "Len" || o.Name() == "Size")
+							})
+							if relatesToInput && prog.DependsOn(iff.Cond, func(w ssa.Value) bool { return w == cnt }) {
+								guarded = true
+							}
+						}
+						if !guarded {
+							bad = x.pos(mk)
+						}
+					}
+					x.check(bad == "", fmt.Sprintf("func=%s count#%d allocation-follows-the-bytes", prog.FnName(fn), i+1), x.pos(cnt.(ssa.Instruction)),
+						"the count read from the input bounds a loop only (or an allocation tested against the input's length)",
+						"the make() at "+bad+" is sized by a count read from the input without relating it to the input's length: 8 bytes claiming 2^22 entries allocate hundreds of MiB — a truncated or hostile row is not rejected, it exhausts memory")
+				}
+			}
+			if n < 1 {
+				x.C.Vacuous(x.id()+" counts read from input", n, 1)
+			}
+		}})
+}
+
+func init() {
+	register(&Rule{ID: "K.merge", Min: 2, Text: "whatever a replica applies, its clock has seen: (a) in every function of package document that executes received changes in a loop (a call of Change.Execute inside a loop), every path from a successful Execute to the next iteration or to the end of the loop passes a store into the document's changeID of the result of ID.SyncLamport / SyncClocks for that change — also for a change that altered nothing observable here (two replicas deleting the same range): its author's entry and lamport must still enter the vector, or the next local change is not newer than what it has seen; (b) InternalDocument.applySnapshot stores the result of ID.SetClocks on every successful exit — a snapshot's vector is merged whether or not its lamport is ahead of the document's own",
+		Run: func(x *Ctx) {
+			exec := x.P.FnObj(changePkg + ".(*Change).Execute")
+			cidF := x.P.Field(docPkg + ".InternalDocument.changeID")
+			if exec == nil || cidF == nil {
+				x.C.Unresolved(x.id(), "Change.Execute / InternalDocument.changeID")
+				return
+			}
+			syncStores := func(fn *ssa.Function, names ...string) []ssa.Instruction {
+				var out []ssa.Instruction
+				for _, st := range storesTo(fn, cidF) {
+					if prog.Reaches(st.Val, func(w ssa.Value) bool {
+						c, ok := w.(*ssa.Call)
+						if !ok || prog.CallObj(c) == nil {
+							return false
+						}
+						for _, nm := range names {
+							if prog.CallObj(c).Name() == nm {
+								return true
+							}
+						}
+						return false
+					}) {
+						out = append(out, st)
+					}
+				}
+				return out
+			}
+			n := 0
+			for _, fn := range x.P.FuncsIn(docPkg) {
+				if len(fn.Blocks) == 0 {
+					continue
+				}
+				loops := prog.Loops(fn)
+				for i, c := range callsToIn(fn, exec) {
+					var loop *prog.Loop
+					for _, l := range loops {
+						if l.Body[c.Block()] && (loop == nil || len(l.Body) < len(loop.Body)) {
+							loop = l
+						}
+					}
+					if loop == nil {
+						continue
+					}
+					syncs := syncStores(fn, "SyncLamport", "SyncClocks")
+					if len(syncs) == 0 {
+						continue // a function that replays without a clock of its own (the editing copy follows the document's)
+					}
+					n++
+					cut := map[prog.Edge]bool{}
+					same := false
+					for _, s := range syncs {
+						if s.Block() == c.Block() && prog.InstrIndex(s) > prog.InstrIndex(c) {
+							same = true
+						}
+						for _, sc := range s.Block().Succs {
+							cut[prog.Edge{From: s.Block(), To: sc}] = true
+						}
+					}
+					ok := same
+					if !ok {
+						reach := prog.ReachableFrom(c.Block(), cut)
+						// leaving the body, or coming round to the header, without a merge
+						ok = !reach[loop.Header]
+						if ok {
+							for b := range reach {
+								if !loop.Body[b] {
+									// an exit from the loop: fine only if it is an error return path
+									if r, isR := b.Instrs[len(b.Instrs)-1].(*ssa.Return); isR && prog.ReturnsNilError(r) {
+										ok = false
+									}
+								}
+							}
+						}
+					}
+					x.check(ok, fmt.Sprintf("func=%s Execute#%d clock-merged-before-the-next-change", prog.FnName(fn), i+1), x.pos(c),
+						"every applied change is merged into the clock",
+						"a change can be executed without its ID being merged into the document's clock (a continue or an early exit between Execute and SyncLamport/SyncClocks): the replica has applied the change but its next own change carries a lamport that is not newer and a vector without the author — peers treat it as concurrent with something it had seen")
+				}
+			}
+			if fn := x.fn(docPkg + ".(*InternalDocument).applySnapshot"); fn != nil {
+				sets := syncStores(fn, "SetClocks")
+				for i, r := range prog.Returns(fn) {
+					if !prog.ReturnsNilError(r) {
+						continue
+					}
+					n++
+					x.check(len(sets) > 0 && passesThrough(r, sets), fmt.Sprintf("func=%s ok-return#%d snapshot-vector-merged", prog.FnName(fn), i+1), x.pos(r),
+						"the snapshot's vector is merged on every successful exit",
+						"applySnapshot can succeed without storing ID.SetClocks(…) into the document's clock (the merge is conditional): a receiver whose own lamport is ahead keeps a vector without the authors it has just received through the snapshot, and its next deletion of their text is dropped on every replica")
+				}
+			}
+			if n < 2 {
+				x.C.Vacuous(x.id()+" merge sites", n, 2)
+			}
+		}})
+}
+
+func init() {
+	register(&Rule{ID: "REG.all", Min: 2, Text: "every element is findable by its identity, removed ones included: in crdt.Root.RegisterElement (used by NewRoot when a snapshot is decoded or a root is deep-copied, and when a container is inserted) every store into Root.elementMap — of the element itself and, in the walk over its descendants, of every descendant — is unconditional with respect to the element (no test of its removal or anything else about it decides the store). A replica fed by changes keeps the tombstoned container registered until GC; a snapshot-fed one that skipped it cannot apply a concurrent edit of that container (ErrNotApplicableDataType) — neither can the server's cached rebuild",
+		Run: func(x *Ctx) {
+			fn := x.fn(crdtPkg + ".(*Root).RegisterElement")
+			mapF := x.P.Field(crdtPkg + ".Root.elementMap")
+			if fn == nil || mapF == nil {
+				if mapF == nil {
+					x.C.Unresolved(x.id(), crdtPkg+".Root.elementMap")
+				}
+				return
+			}
+			n := 0
+			for _, g := range append([]*ssa.Function{fn}, prog.Closures(fn)...) {
+				for i, mu := range mapUpdatesOf(g, mapF) {
+					n++
+					bad := ""
+					for _, iff := range x.P.ControlDeps(mu.Block()) {
+						aboutElem := prog.DependsOn(iff.Cond, func(w ssa.Value) bool {
+							if pm, ok := w.(*ssa.Parameter); ok {
+								// the receiver of RegisterElement is the root, not the element
+								return !(g == fn && pm == fn.Params[0])
+							}
+							return false
+						})
+						if aboutElem {
+							bad = x.pos(iff)
+						}
+					}
+					x.check(bad == "", fmt.Sprintf("func=%s elementMap-store#%d unconditional", prog.FnName(g), i+1), x.pos(mu),
+						"the element is registered whatever its state",
+						"the registration of an element depends on a test about the element (at "+bad+"): elements failing it — removed descendants of a decoded snapshot — cannot be resolved by identity, so a later change that edits a concurrently removed container fails on the snapshot-fed replica (and on the server's cached rebuild) while change-fed replicas apply it to the tombstone")
+				}
+			}
+			if n < 2 {
+				x.C.Vacuous(x.id()+" elementMap stores", n, 2)
+			}
+		}})
+}
+
+func init() {
+	register(&Rule{ID: "LINK.sym", Min: 3, Text: "unlinking from a doubly linked chain rewires both neighbours: in the CRDT model, a function that detaches a node from a chain kept by a pair of pointer fields of its own type (prev/next, insPrev/insNext — it stores nil into both fields of the node) also stores into the forward field of the node's predecessor and into the backward field of its successor. With only one side rewired a purged node stays referenced: the piece behind a purged text run still names it as its insPrev, and the next deep copy or snapshot of the text fails (\"insPrevNode should be presence\")",
+		Run: func(x *Ctx) {
+			x.mutators() // sets localRoot
+			n := 0
+			for _, fn := range x.P.FuncsIn(crdtPkg) {
+				if len(fn.Blocks) == 0 || (fn.Origin() != nil && fn.Origin() != fn) {
+					continue
+				}
+				// nil stores per (base value, field)
+				type key struct {
+					base ssa.Value
+					f    string
+				}
+				nils := map[key]*ssa.Store{}
+				var all []*ssa.Store
+				for _, b := range fn.Blocks {
+					for _, ins := range b.Instrs {
+						st, ok := ins.(*ssa.Store)
+						if !ok {
+							continue
+						}
+						fa, isFA := st.Addr.(*ssa.FieldAddr)
+						if !isFA {
+							continue
+						}
+						f := prog.FieldVar(fa)
+						if f == nil {
+							continue
+						}
+						// a pointer field to the struct's own type
+						pt, isP := f.Type().(*types.Pointer)
+						if !isP || namedOf(pt.Elem()) == nil || namedOf(fa.X.Type()) == nil || namedOf(pt.Elem()).Obj() != namedOf(fa.X.Type()).Obj() {
+							continue
+						}
+						all = append(all, st)
+						if prog.IsNilConst(st.Val) {
+							nils[key{prog.Strip(fa.X), f.Name()}] = st
+						}
+					}
+				}
+				pairs := [][2]string{{"prev", "next"}, {"insPrev", "insNext"}}
+				for _, pr := range pairs {
+					for k, st := range nils {
+						if k.f != pr[0] {
+							continue
+						}
+						if _, both := nils[key{k.base, pr[1]}]; !both {
+							continue
+						}
+						if localRoot != nil && localRoot(k.base) {
+							continue // a constructor initialising a fresh node
+						}
+						// the node k.base is detached from the (pr[0], pr[1]) chain here
+						rewired := func(via, field string) bool {
+							for _, s2 := range all {
+								fa := s2.Addr.(*ssa.FieldAddr)
+								if prog.FieldVar(fa).Name() != field || prog.IsNilConst(s2.Val) {
+									continue
+								}
+								// the base is the node's neighbour: loaded from node.<via>
+								if lf := prog.LoadedField(fa.X); lf != nil && lf.Name() == via && sameAccessPath(prog.FieldBase(fa.X), k.base) {
+									return true
+								}
+							}
+							return false
+						}
+						n++
+						kk := fmt.Sprintf("func=%s chain=%s/%s", prog.FnName(fn), pr[0], pr[1])
+						x.check(rewired(pr[0], pr[1]), kk+" predecessor-rewired", x.pos(st), "node."+pr[0]+"."+pr[1]+" is rewired", "the node is detached but its predecessor's "+pr[1]+" link is not rewired: the predecessor keeps pointing at the detached node")
+						n++
+						x.check(rewired(pr[1], pr[0]), kk+" successor-rewired", x.pos(st), "node."+pr[1]+"."+pr[0]+" is rewired", "the node is detached but its successor's "+pr[0]+" link is not rewired: the piece behind a purged node still names it — the next deep copy or snapshot of the structure fails, on the server for every later rebuild")
+					}
+				}
+			}
+			if n < 3 {
+				x.C.Vacuous(x.id()+" unlink sites", n, 3)
+			}
+		}})
+
+	register(&Rule{ID: "IDX.flag", Min: 3, Text: "the include-removed flag decides every removal test: in pkg/index, in a function that has the flag (a bool derived from its variadic includeRemoved parameter), every branch on a node's removal (IsRemoved) is taken together with the flag — the removal test is control-dependent on a test of the flag, or its condition combines both. A removal skip that ignores the flag makes the tombstone-including pass (TotalLength, the bounds of range edits on a snapshot-loaded tree) leave tombstones out",
+		Run: func(x *Ctx) {
+			n := 0
+			for _, fn := range x.P.FuncsIn("pkg/index") {
+				if len(fn.Blocks) == 0 || (fn.Origin() != nil && fn.Origin() != fn) {
+					continue
+				}
+				// the flag: a bool loaded from the variadic bool slice parameter
+				var vparam *ssa.Parameter
+				if fn.Signature.Variadic() && len(fn.Params) > 0 {
+					last := fn.Params[len(fn.Params)-1]
+					if sl, ok := last.Type().(*types.Slice); ok && isBoolType(sl.Elem()) {
+						vparam = last
+					}
+				}
+				if vparam == nil {
+					continue
+				}
+				isFlag := func(v ssa.Value) bool {
+					return prog.DependsOn(v, func(w ssa.Value) bool { return w == ssa.Value(vparam) })
+				}
+				i := 0
+				for _, b := range fn.Blocks {
+					iff := prog.IfOf(b)
+					if iff == nil || !mentionsRemoval(iff.Cond) {
+						continue
+					}
+					i++
+					n++
+					ok := isFlag(iff.Cond)
+					for _, dep := range x.P.ControlDeps(b) {
+						if isFlag(dep.Cond) {
+							ok = true
+						}
+					}
+					x.check(ok, fmt.Sprintf("func=%s removal-test#%d decided-with-the-flag", prog.FnName(fn), i), x.pos(iff),
+						"the removal test is combined with the include-removed flag",
+						"a removal test in a function that has the include-removed flag does not consult the flag: in the tombstone-including mode removed nodes are skipped as well — after decoding a snapshot TotalLength leaves the tombstones out, and range edits behind a tombstone use wrong bounds (append fails with 'from is out of range', a delete merges the next paragraph)")
+				}
+			}
+			if n < 3 {
+				x.C.Vacuous(x.id()+" removal tests in flagged functions", n, 3)
+			}
+		}})
+
+	register(&Rule{ID: "ATTR.own", Min: 3, Text: "an attribute table belongs to one node: in the CRDT model a value of type *RHT that is installed in a node — stored into a field of type *RHT, or handed to a New… constructor — is not read out of another node's field (it is nil, freshly made, or a DeepCopy). Two halves of a split element that share one table change style together: a style addressed to one half shows on both",
+		Run: func(x *Ctx) {
+			rhtT := x.P.Named(crdtPkg + ".RHT")
+			if rhtT == nil {
+				x.C.Unresolved(x.id(), crdtPkg+".RHT")
+				return
+			}
+			isRHTPtr := func(t types.Type) bool {
+				p, ok := t.(*types.Pointer)
+				return ok && isNamed(p.Elem(), rhtT)
+			}
+			n := 0
+			for _, fn := range x.P.FuncsIn(crdtPkg) {
+				if len(fn.Blocks) == 0 || (fn.Origin() != nil && fn.Origin() != fn) {
+					continue
+				}
+				type site struct {
+					v    ssa.Value
+					at   ssa.Instruction
+					what string
+					self ssa.Value // the object the value is installed in (a store), if known
+				}
+				var sites []site
+				for _, b := range fn.Blocks {
+					for _, ins := range b.Instrs {
+						switch t := ins.(type) {
+						case *ssa.Store:
+							if fa, ok := t.Addr.(*ssa.FieldAddr); ok && isRHTPtr(t.Val.Type()) && prog.FieldVar(fa) != nil {
+								sites = append(sites, site{t.Val, t, "store into " + prog.FieldVar(fa).Name(), fa.X})
+							}
+						case *ssa.Call:
+							o := prog.CallObj(t)
+							if o == nil || !(strings.HasPrefix(o.Name(), "New") || strings.HasPrefix(o.Name(), "new")) {
+								continue
+							}
+							for _, a := range t.Call.Args {
+								if isRHTPtr(a.Type()) {
+									sites = append(sites, site{a, t, "argument of " + o.Name(), nil})
+								}
+							}
+						}
+					}
+				}
+				for i, s := range sites {
+					n++
+					from := ""
+					prog.Reaches(s.v, func(w ssa.Value) bool {
+						if lf := prog.LoadedField(w); lf != nil && isRHTPtr(lf.Type()) {
+							if s.self != nil && sameAccessPath(prog.FieldBase(w), s.self) {
+								return false // the node's own table
+							}
+							from = lf.Name()
+							return true
+						}
+						return false
+					})
+					x.check(from == "", fmt.Sprintf("func=%s table#%d(%s) not-taken-from-another-node", prog.FnName(fn), i+1, s.what), x.pos(s.at),
+						"the table is nil, fresh or a copy",
+						"the attribute table installed here is the one read from another node's field "+from+" (no DeepCopy in between): both nodes share it — after an element split, Style or RemoveStyle addressed to one half changes both")
+				}
+			}
+			if n < 3 {
+				x.C.Vacuous(x.id()+" table installations", n, 3)
+			}
+		}})
+}
+
+func init() {
+	register(&Rule{ID: "POS.zero", Min: 1, Text: "a local position never names a text node with nothing consumed: in crdt.Tree.FindPos, on the branch where the node the index tree answered with is a text node, that node itself is taken as the left sibling only where the local offset is known to be non-zero (the read of the node's value is reachable only over the offset != 0 edge). Offset 0 of a text node means \"in front of it\"; encoded as (text node, +0) the resolver reads it as \"behind the whole node\", and an insert at the index in front of a text that follows an element lands behind the text",
+		Run: func(x *Ctx) {
+			fn := x.fn(crdtPkg + ".(*Tree).FindPos")
+			if fn == nil {
+				return
+			}
+			var node, off ssa.Value
+			for _, b := range fn.Blocks {
+				for _, ins := range b.Instrs {
+					u, ok := ins.(*ssa.UnOp)
+					if !ok || u.Op != token.MUL {
+						continue
+					}
+					fa, isFA := u.X.(*ssa.FieldAddr)
+					if !isFA || namedOf(fa.X.Type()) == nil || namedOf(fa.X.Type()).Obj().Name() != "TreePos" {
+						continue
+					}
+					if f := prog.FieldVar(fa); f != nil {
+						switch f.Name() {
+						case "Node":
+							if node == nil {
+								node = u
+							}
+						case "Offset":
+							if off == nil {
+								off = u
+							}
+						}
+					}
+				}
+			}
+			if node == nil || off == nil {
+				x.fail("func="+prog.FnName(fn)+" shape", x.fpos(fn), "FindPos no longer reads Node and Offset of the index tree's answer")
+				return
+			}
+			// the text branch
+			var textSucc *ssa.BasicBlock
+			for _, b := range fn.Blocks {
+				iff := prog.IfOf(b)
+				if iff == nil {
+					continue
+				}
+				if c, ok := iff.Cond.(*ssa.Call); ok && prog.CallObj(c) != nil && prog.CallObj(c).Name() == "IsText" && recvOf(c) == node {
+					textSucc = b.Succs[0]
+				}
+			}
+			if textSucc == nil {
+				x.fail("func="+prog.FnName(fn)+" shape", x.fpos(fn), "FindPos no longer branches on IsText of the answered node")
+				return
+			}
+			nonZero := []Cmp{{L: vpValue(off), R: vpConst(0), Want: NE}}
+			n := 0
+			for _, b := range fn.Blocks {
+				if !(b == textSucc || textSucc.Dominates(b)) {
+					continue
+				}
+				for _, ins := range b.Instrs {
+					u, ok := ins.(*ssa.UnOp)
+					if !ok || u.Op != token.MUL {
+						continue
+					}
+					fa, isFA := u.X.(*ssa.FieldAddr)
+					if !isFA || fa.X != node || prog.FieldVar(fa) == nil || prog.FieldVar(fa).Name() != "Value" {
+						continue
+					}
+					n++
+					x.check(x.quietGuarded(u, nonZero), fmt.Sprintf("func=%s text-node-as-left-sibling#%d only-with-nonzero-offset", prog.FnName(fn), n), x.pos(u),
+						"the text node is its own left sibling only when something of it is consumed",
+						"the text node itself becomes the left sibling on a path where the local offset can be 0: the position in front of a text node that is not the first child is encoded as (text, +0), which the resolver reads as behind the whole node — Edit(3,3,X) on <p><b></b>cd</p> gives <p><b></b>cdX</p>")
+				}
+			}
+			if n < 1 {
+				x.C.Vacuous(x.id()+" text-node-as-left-sibling sites", n, 1)
+			}
+		}})
+}
